@@ -21,6 +21,8 @@ import (
 	"testing"
 
 	"github.com/tsawler/tabula"
+	"github.com/tsawler/tabula/docx"
+	"github.com/tsawler/tabula/odt"
 	"pgregory.net/rapid"
 
 	"verif/harness/gen/docxw"
@@ -36,6 +38,9 @@ type WPCase struct {
 	Footer string   `json:"footer"`      // "" = no footer part
 	Left   string   `json:"left_header"` // ODT only: text of style:header-left ("" = none)
 	Option string   `json:"option"`      // both | headers | footers
+	// Seq: exclusion options asked of ONE format-level reader (docx.Reader / odt.Reader) one after the other
+	// (none | headers | footers | both); every answer must be the one a fresh reader gives
+	Seq []string `json:"seq,omitempty"`
 }
 
 func init() { vr.Register("wp", checkWP) }
@@ -160,6 +165,57 @@ func checkWP(c WPCase) error {
 	if strings.Join(paragraphs(mu), "\n") != strings.Join(wantU, "\n") || strings.Join(paragraphs(mf), "\n") != strings.Join(wantF, "\n") {
 		return fmt.Errorf("%s: ToMarkdown() under exclusion (%s) = %q, want %q", c.Format, c.Option, paragraphs(mf), wantF)
 	}
+	// one reader, several requests
+	if len(c.Seq) > 0 {
+		ask := func(path string) (func(h, f bool) (string, string, error), func(), error) {
+			if c.Format == "docx" {
+				r, err := docx.Open(path)
+				if err != nil {
+					return nil, nil, err
+				}
+				return func(h, f bool) (string, string, error) {
+					o := docx.ExtractOptions{ExcludeHeaders: h, ExcludeFooters: f}
+					t, e1 := r.TextWithOptions(o)
+					m, e2 := r.MarkdownWithOptions(o)
+					if e1 == nil {
+						e1 = e2
+					}
+					return t, m, e1
+				}, func() { r.Close() }, nil
+			}
+			r, err := odt.Open(path)
+			if err != nil {
+				return nil, nil, err
+			}
+			return func(h, f bool) (string, string, error) {
+				o := odt.ExtractOptions{ExcludeHeaders: h, ExcludeFooters: f}
+				t, e1 := r.TextWithOptions(o)
+				m, e2 := r.MarkdownWithOptions(o)
+				if e1 == nil {
+					e1 = e2
+				}
+				return t, m, e1
+			}, func() { r.Close() }, nil
+		}
+		shared, closeShared, err := ask(path)
+		if err != nil {
+			return fmt.Errorf("%s.Open failed on a valid document: %v", c.Format, err)
+		}
+		defer closeShared()
+		for i, o := range c.Seq {
+			h, f := o == "headers" || o == "both", o == "footers" || o == "both"
+			st, sm, serr := shared(h, f)
+			fresh, closeFresh, err := ask(path)
+			if err != nil {
+				return fmt.Errorf("%s.Open: %v", c.Format, err)
+			}
+			ft, fm, ferr := fresh(h, f)
+			closeFresh()
+			if st != ft || sm != fm || (serr == nil) != (ferr == nil) {
+				return fmt.Errorf("%s: request %d (%s) on a reader that already answered %v gives %q; a fresh reader gives %q", c.Format, i+1, o, c.Seq[:i], paragraphs(st), paragraphs(ft))
+			}
+		}
+	}
 	return nil
 }
 
@@ -176,6 +232,11 @@ func genWP(t *rapid.T) WPCase {
 	}
 	if c.Format == "odt" && c.Header != "" && rapid.Bool().Draw(t, "leftHeader") {
 		c.Left = "Left page title " + rapid.StringMatching(`[A-Z][a-z]{3,8}`).Draw(t, "lw")
+	}
+	if rapid.Bool().Draw(t, "sequence") {
+		for i, k := 0, rapid.IntRange(2, 4).Draw(t, "seqLen"); i < k; i++ {
+			c.Seq = append(c.Seq, rapid.SampledFrom([]string{"none", "headers", "footers", "both"}).Draw(t, "seqOpt"))
+		}
 	}
 	n := rapid.IntRange(1, 8).Draw(t, "paras")
 	for i := 0; i < n; i++ {
@@ -221,6 +282,9 @@ func metaWP(c WPCase) vr.Meta {
 	}
 	if c.Header != "" && c.Header == c.Footer {
 		labels = append(labels, "wp:header-equals-footer")
+	}
+	if len(c.Seq) > 0 {
+		labels = append(labels, "wp:one-reader-several-requests")
 	}
 	seen := map[string]bool{}
 	var u []string
